@@ -77,8 +77,7 @@ theorem rejects_out_of_range_partial (f : Form) (y mo d h mi s : Int) (nd : Nat)
 
 /-- the same clause through `Format::parse`: decided instances (month 13, day 32, hour 25, minute 60,
     30 February are errors, the valid text is a value) — tests of the model, labelled as such; the
-    universal statement for formats is `C13Format.stored_fields_in_range` (every stored field passed
-    `value_ok`) together with the calendar's `is_gregorian_valid` (C08) -/
+    universal statement for formats is `format_parse_rejects_out_of_range_partial` below -/
 theorem format_parse_rejects_out_of_range_instances :
     Efmt.formatParse C13Format.O0 (C13Format.fmtOf "%Y-%m-%d %H:%M:%S") (Cal.strCodes "2015-13-07 11:22:33") = .err ∧
     Efmt.formatParse C13Format.O0 (C13Format.fmtOf "%Y-%m-%d %H:%M:%S") (Cal.strCodes "2015-02-32 11:22:33") = .err ∧
@@ -87,5 +86,21 @@ theorem format_parse_rejects_out_of_range_instances :
     Efmt.formatParse C13Format.O0 (C13Format.fmtOf "%Y-%m-%d %H:%M:%S") (Cal.strCodes "2015-02-30 11:22:33") = .err ∧
     Efmt.formatParse C13Format.O0 (C13Format.fmtOf "%Y-%m-%d %H:%M:%S") (Cal.strCodes "2015-02-07 11:22:33") = .ok ⟨⟨1, 476536953000000000⟩, .UTC⟩ :=
   C13Format.rejects_out_of_range
+
+/-- **Rejection through `Format::parse`**, universal over the numeric class of formats (`Efmt.numClass`: the seven
+    numeric tokens in any order, all present, every item but the last followed by one or two non-numeric ASCII
+    separators) and over every well-formed text (`C13Format.printed`: each field at the formatter's width, ANY
+    values): fields the specification calendar rejects, or hour 24, are an error — outside D10, hence `_partial`
+    (counterexample `C13Format.format_parse_d10_counterexample`).  Behind it: on such text `Format::parse` IS
+    `maybe_from_gregorian` of the fields (`C13Format.format_parse_is_from_gregorian`), and what must be accepted
+    parses to the specified instant (`C13Format.format_parse_accepts`). -/
+theorem format_parse_rejects_out_of_range_partial (O : Efmt.Oracles) (f : Efmt.Format) (hc : Efmt.numClass f = true)
+    (y mo d h mi s ns : Int)
+    (hy : 0 ≤ y ∧ y ≤ 9999) (hmo : 0 ≤ mo ∧ mo < 100) (hd : 0 ≤ d ∧ d < 100) (hh : 0 ≤ h ∧ h < 100)
+    (hmi : 0 ≤ mi ∧ mi < 100) (hs : 0 ≤ s ∧ s < 100) (hns : 0 ≤ ns ∧ ns < 1000000000)
+    (hrej : mustReject iersLeapDates ⟨y, mo, d⟩ h mi s ns = true ∨ h = 24)
+    (hD10 : Cal.d10class y mo d = false) :
+    Efmt.formatParse O f (C13Format.printed f y mo d h mi s ns) = .err :=
+  C13Format.format_parse_rejects_out_of_range_partial O f hc y mo d h mi s ns hy hmo hd hh hmi hs hns hrej hD10
 
 end Hifi.C13
